@@ -208,6 +208,127 @@ def applyFile (f : File) (fns : List (String × Fn)) : Except String File :=
     | none => d.len
   .ok { f with dims := f.dims.map (fun d => { d with len := newLen d }), vars := f.vars.map (applyVar f fns) }
 
+/-! ### file arithmetic, mask, eval (C06) -/
+
+inductive Op where
+  | add | sub | mul | div | floordiv | pow | mod | lt | le | gt | ge | eq | ne
+deriving Repr, DecidableEq
+
+def floorR (q : Rat) : Int := q.num / q.den
+
+def ratPow (a : Rat) (n : Int) : Option Rat :=
+  if n ≥ 0 then some (a ^ n.toNat)
+  else if a = 0 then none else some (1 / a ^ (-n).toNat)
+
+def isIntegral (q : Rat) : Bool := q.den == 1
+
+/-- one cell of `a op b` with numpy semantics; `none` = masked (an operand was masked or the float
+result is not finite); integer division/modulo by zero give 0 (numpy) unless an operand is a masked array
+(`domain`: numpy.ma masks the domain error) -/
+def Op.cell (op : Op) (isInt : Bool) (a b : Cell) (domain : Bool := false) : Cell :=
+  match a, b with
+  | some x, some y =>
+    let boolc (p : Bool) : Cell := some (if p then 1 else 0)
+    match op with
+    | .add => some (x + y)
+    | .sub => some (x - y)
+    | .mul => some (x * y)
+    | .div => if y = 0 then none else some (x / y)
+    | .floordiv => if y = 0 then (if isInt ∧ !domain then some 0 else none) else some ((floorR (x / y) : Int) : Rat)
+    | .mod => if y = 0 then (if isInt ∧ !domain then some 0 else none) else some (x - y * ((floorR (x / y) : Int) : Rat))
+    | .pow => if isIntegral y then ratPow x y.num else none
+    | .lt => boolc (x < y) | .le => boolc (x ≤ y) | .gt => boolc (x > y) | .ge => boolc (x ≥ y)
+    | .eq => boolc (x == y) | .ne => boolc (x != y)
+  | _, _ => none
+
+-- cell-wise combination of two equally shaped arrays
+mutual
+def zipCells (g : Cell → Cell → Cell) : Arr Cell → Arr Cell → Arr Cell
+  | .leaf a, .leaf b => .leaf (g a b)
+  | .node xs, .node ys => .node (zipCellsL g xs ys)
+  | a, _ => a
+def zipCellsL (g : Cell → Cell → Cell) : List (Arr Cell) → List (Arr Cell) → List (Arr Cell)
+  | x :: xs, y :: ys => zipCells g x y :: zipCellsL g xs ys
+  | _, _ => []
+end
+
+/-- one variable of `f1 <op> f2` -/
+def binopVar (op : Op) (f2 : File) (coords : List String) (v : Var) : Var :=
+  if coords.contains v.name then v else
+  match f2.var? v.name with
+  | none => v
+  | some w =>
+    let attrs := if v.attrs.contains "units" then v.attrs else v.attrs ++ ["units"]
+    let attrs := if attrs.contains "fill_value" then attrs else attrs ++ ["fill_value"]
+    { v with data := zipCells (fun a b => op.cell (v.isInt && w.isInt) a b (v.masked || w.masked)) v.data w.data,
+             attrs := attrs, masked := true }
+
+/-- `f1 <op> f2` (pncbo): coordinate variables and variables missing on the right are copied from
+the left operand -/
+def binopFile (op : Op) (f1 f2 : File) (coords : List String) : Except String File :=
+  if f1.vars.any (fun v => !coords.contains v.name && match f2.var? v.name with
+      | some w => f1.shapeOf v != f2.shapeOf w
+      | none => false) then .error "ValueError"
+  else .ok { f1 with vars := f1.vars.map (binopVar op f2 coords) }
+
+/-- predicates of `mask()` (applied in the documented order; all are unions) -/
+structure MaskSpec where
+  whereDims : Option (List String)     -- dims of the `where` array (None: no where)
+  whereBits : Arr Cell                 -- 1 = mask, as cells
+  greater : Option Rat
+  greaterEq : Option Rat
+  less : Option Rat
+  lessEq : Option Rat
+  equal : Option Rat
+
+/-- does an unmasked value satisfy one of the predicates (or the `where` bit)? -/
+def maskHit (m : MaskSpec) (w : Cell) (x : Rat) : Bool :=
+  (w == some 1)
+    || (match m.greater with | some g => decide (x > g) | none => false)
+    || (match m.greaterEq with | some g => decide (x ≥ g) | none => false)
+    || (match m.less with | some g => decide (x < g) | none => false)
+    || (match m.lessEq with | some g => decide (x ≤ g) | none => false)
+    || (match m.equal with | some g => decide (g = x) | none => false)
+
+def maskCell (m : MaskSpec) (w : Cell) (c : Cell) : Cell :=
+  match c with
+  | none => none
+  | some x => if maskHit m w x then none else some x
+
+def maskFile (f : File) (m : MaskSpec) (coords : List String) (maskCoords : Bool) : File :=
+  { f with vars := f.vars.map (fun v =>
+      let attrs := if v.attrs.contains "fill_value" then v.attrs else v.attrs ++ ["fill_value"]
+      if coords.contains v.name ∧ !maskCoords then { v with attrs := attrs, masked := true } else
+      let useWhere := m.whereDims == some v.dims
+      let d := if useWhere then zipCells (fun c w => maskCell m w c) v.data m.whereBits
+               else Arr.mapCells (maskCell m none) v.data
+      { v with data := d, attrs := attrs, masked := true }) }
+
+/-- expressions of `eval` (the grammar the check generates) -/
+inductive Expr where
+  | var (n : String)
+  | lit (q : Rat)
+  | bin (op : Op) (a b : Expr)
+  | neg (a : Expr)
+deriving Repr
+
+def Expr.firstVar : Expr → Option String
+  | .var n => some n
+  | .lit _ => none
+  | .bin _ a b => match a.firstVar with | some n => some n | none => b.firstVar
+  | .neg a => a.firstVar
+
+def constLike : Arr Cell → Rat → Arr Cell := fun a q => Arr.mapCells (fun _ => some q) a
+
+/-- value of an expression over the file's variables (all of one shape) -/
+def Expr.eval (f : File) (shapeOf : Arr Cell) : Expr → Option (Arr Cell)
+  | .var n => (f.var? n).map (·.data)
+  | .lit q => some (constLike shapeOf q)
+  | .neg a => (a.eval f shapeOf).map (Arr.mapCells (fun c => c.map (fun x => -x)))
+  | .bin op a b => match a.eval f shapeOf, b.eval f shapeOf with
+    | some x, some y => some (zipCells (fun a b => op.cell false a b) x y)
+    | _, _ => none
+
 /-! ### wire format -/
 open Wire
 
@@ -320,6 +441,55 @@ def runC04 : List String → String
       | some (fs, [sd]) => showRes (stackFiles fs sd)
       | _ => "err parse"
     | none => "err parse"
+  | _ => "err bad-op"
+
+def parseOp : String → Option Op
+  | "add" => some .add | "sub" => some .sub | "mul" => some .mul | "div" => some .div
+  | "floordiv" => some .floordiv | "pow" => some .pow | "mod" => some .mod | "lt" => some .lt
+  | "le" => some .le | "gt" => some .gt | "ge" => some .ge | "eq" => some .eq | "ne" => some .ne
+  | _ => none
+
+/-- prefix expression: `bin,<op>,<e>,<e>` | `neg,<e>` | `var,<name>` | `lit,<rat>` -/
+def parseExpr : Nat → List String → Option (Expr × List String)
+  | 0, _ => none
+  | _ + 1, "var" :: n :: rest => some (.var n, rest)
+  | _ + 1, "lit" :: q :: rest => (parseRat q).map (fun r => (.lit r, rest))
+  | fuel + 1, "neg" :: rest => (parseExpr fuel rest).map (fun (e, r) => (.neg e, r))
+  | fuel + 1, "bin" :: o :: rest =>
+    match parseOp o, parseExpr fuel rest with
+    | some op, some (a, r1) => (parseExpr fuel r1).map (fun (b, r2) => (.bin op a b, r2))
+    | _, _ => none
+  | _, _ => none
+
+def runC06 : List String → String
+  | ["binop", op, coords, d1, v1, a1, d2, v2, a2] =>
+    match parseOp op, parseFile d1 v1 a1, parseFile d2 v2 a2 with
+    | some o, some f1, some f2 => showRes (binopFile o f1 f2 (parseNames coords))
+    | _, _, _ => "err parse"
+  | ["mask", coords, mc, d, v, a, wd, wc, g, ge, l, le, e] =>
+    match parseFile d v a, parseOpt parseRat g, parseOpt parseRat ge, parseOpt parseRat l, parseOpt parseRat le,
+        parseOpt parseRat e, parseList parseCell wc with
+    | some f, some g, some ge, some l, some le, some e, some wcs =>
+      let wdims := if wd = "_" then none else some (parseNames wd)
+      let shape := match wdims with | some ds => ds.map f.dimLen | none => []
+      let m : MaskSpec := ⟨wdims, unflatten none shape wcs, g, ge, l, le, e⟩
+      showRes (.ok (maskFile f m (parseNames coords) (mc == "1")))
+    | _, _, _, _, _, _, _ => "err parse"
+  | ["eval", target, expr, coords, d, v, a] =>
+    match parseFile d v a, parseExpr 64 (expr.splitOn ",") with
+    | some f, some (e, []) =>
+      match e.firstVar.bind f.var? with
+      | none => "err novar"
+      | some tv =>
+        match e.eval f tv.data with
+        | none => "err KeyError"
+        | some dat =>
+          let cs := parseNames coords
+          let keep := f.vars.filter (fun v => cs.contains v.name && v.name != target)
+          let attrs := if tv.attrs.contains "expression" then tv.attrs else tv.attrs ++ ["expression"]
+          let nv : Var := { tv with name := target, data := dat, attrs := attrs }
+          showRes (.ok { f with vars := keep ++ [nv] })
+    | _, _ => "err parse"
   | _ => "err bad-op"
 
 end PFile
